@@ -725,6 +725,7 @@ Fixpoint np_sublists (l : list (list ilab)) : option (list (list tok)) :=
   end.
 Definition np_parse_inter (ops : list (shape * list ilab)) (out : option (list ilab))
   : option (list (list lab) * list lab) :=
+  if Nat.eqb (length ops) 0 then None else       (* einsum needs at least one operand *)
   match np_sublists (map snd ops) with
   | None => None
   | Some ts =>
@@ -889,7 +890,11 @@ Definition unlex1 (t : tok) : str :=
   | TArrow => [c_dash; c_gt]
   end.
 Definition unlex (ts : list tok) : str := concat (map unlex1 ts).
-Definition tok_ok (t : tok) : Prop := match t with TL c => is_letter c = true | _ => True end.
+(* a label character that cannot be confused with the syntax: every letter is one, and so is
+   every symbol get_symbol produces *)
+Definition not_reserved (c : nat) : Prop :=
+  c <> c_space /\ c <> c_comma /\ c <> c_dash /\ c <> c_dot /\ c <> c_gt.
+Definition tok_ok (t : tok) : Prop := match t with TL c => not_reserved c | _ => True end.
 
 (* sorted(set(s)) filtered by "occurs once" *)
 Definition once_sorted (l : list nat) : list nat :=
@@ -898,6 +903,18 @@ Definition once_sorted (l : list nat) : list nat :=
 (* the labels of a parsed call: letters occurring in the inputs, broadcast dimensions below |E| *)
 Definition label_in (used : list nat) (E : str) (l : lab) : Prop :=
   match l with LN c => In c used | LB k => k < length E end.
+
+(* well-formedness of the symbol map of the interleaved form: keys distinct, Ellipsis -> "...",
+   labels -> one symbol get_symbol i each, distinct labels -> distinct symbols *)
+Definition dots : str := [c_dot; c_dot; c_dot].
+Definition sm_wf (m : list (ilab * str)) (c : nat) : Prop :=
+  NoDup (map fst m) /\
+  (forall x v, In (x, v) m -> match x with IE => v = dots | IL _ => exists i, i < c /\ v = [get_symbol i] end) /\
+  (forall k1 k2 i, In (IL k1, [get_symbol i]) m -> In (IL k2, [get_symbol i]) m -> k1 = k2).
+
+(* the symbol of label k *)
+Definition sigma (m : list (ilab * str)) (k : nat) : nat :=
+  match sm_get m (IL k) with Some [s] => s | _ => 0 end.
 
 (* --- structured equations, for stating the theorems over ALL well-formed inputs --- *)
 (* a term: letters before the ellipsis, whether there is one, letters after *)
